@@ -432,7 +432,9 @@ func (c *Ctx) entryLocks(fn *ssa.Function, g guardSpec) lockState {
 	}
 	p := fn.Parent()
 	if p == nil {
-		return st
+		// an unexported function or method that is only ever called directly, and at every call site with the lock held,
+		// runs with the lock held: helpers split off a locked function need no entry in the caller-holds table
+		return c.inferredEntryLocks(fn, g)
 	}
 	// find the MakeClosure and how it is used
 	var mk *ssa.MakeClosure
@@ -537,5 +539,108 @@ func (c *Ctx) ruleHeldAt(rule string, fn *ssa.Function, siteName string, p siteP
 		}
 		construct := fmt.Sprintf("%s:%s#%d:holds:%s", fnName(fn), siteName, i, lock)
 		c.check(st.holds(lock, write), rule, construct, c.pos(in.Pos()), "held: "+st.String(), fmt.Sprintf("%s executes without %s (held: %s)", siteName, lock, st.String()))
+	}
+}
+
+// inferredEntryLocks: the locks held at every static call site of fn (intersection), provided fn is unexported, has at
+// least one call site in its own package and is never used as a value (method value, function value, interface
+// satisfaction through which it could be invoked from elsewhere). Recursion through helpers of helpers is bounded.
+func (c *Ctx) inferredEntryLocks(fn *ssa.Function, g guardSpec) lockState {
+	empty := lockState{}
+	if fn == nil || fn.Pkg == nil || fn.Object() == nil || fn.Object().Exported() {
+		return empty
+	}
+	if c.inferDepth > 3 {
+		return empty
+	}
+	if c.inferMemo == nil {
+		c.inferMemo = map[string]lockState{}
+	}
+	key := g.lock + "|" + fnName(fn)
+	if st, ok := c.inferMemo[key]; ok {
+		return st
+	}
+	c.inferMemo[key] = empty // cycle guard
+	c.buildCallIndex()
+	sites := c.callIndex[fn]
+	if len(sites) == 0 || c.usedAsValue[fn] {
+		return empty
+	}
+	if fn.Signature.Recv() != nil && c.invokedNames[fn.Name()] {
+		return empty // a method of that name is called through an interface somewhere: not every caller is known
+	}
+	c.inferDepth++
+	defer func() { c.inferDepth-- }()
+	var acc lockState
+	for _, in := range sites {
+		caller := in.Parent()
+		if _, isDefer := in.(*ssa.Defer); isDefer {
+			return empty // runs at the caller's exit, after its own deferred unlocks may have run
+		}
+		if _, isGo := in.(*ssa.Go); isGo {
+			return empty
+		}
+		lf := newLockFlow(caller, c.entryLocks(caller, g), true)
+		st, _ := lf.at(in)
+		if st == nil {
+			return empty
+		}
+		if acc == nil {
+			acc = st.clone()
+		} else {
+			acc = meet(acc, st, true)
+		}
+	}
+	if acc == nil {
+		acc = empty
+	}
+	c.inferMemo[key] = acc
+	return acc
+}
+
+// buildCallIndex: static call sites per callee, and the functions that are referenced other than as a static callee.
+func (c *Ctx) buildCallIndex() {
+	if c.callIndex != nil {
+		return
+	}
+	c.callIndex = map[*ssa.Function][]ssa.Instruction{}
+	c.usedAsValue = map[*ssa.Function]bool{}
+	c.invokedNames = map[string]bool{}
+	for _, f := range c.allFns {
+		for _, b := range f.Blocks {
+			for _, in := range b.Instrs {
+				var callee ssa.Value
+				if cc := callOf(in); cc != nil {
+					if cc.IsInvoke() {
+						c.invokedNames[cc.Method.Name()] = true
+					}
+					if sc := cc.StaticCallee(); sc != nil {
+						c.callIndex[sc] = append(c.callIndex[sc], in)
+					}
+					callee = cc.Value
+				} else if d, ok := in.(*ssa.Defer); ok {
+					if sc := d.Call.StaticCallee(); sc != nil {
+						c.callIndex[sc] = append(c.callIndex[sc], in)
+					}
+					callee = d.Call.Value
+				} else if gg, ok := in.(*ssa.Go); ok {
+					if sc := gg.Call.StaticCallee(); sc != nil {
+						c.callIndex[sc] = append(c.callIndex[sc], in)
+					}
+					callee = gg.Call.Value
+				}
+				for _, op := range in.Operands(nil) {
+					if op == nil || *op == nil {
+						continue
+					}
+					if fv, ok := (*op).(*ssa.Function); ok && ssa.Value(fv) != callee {
+						c.usedAsValue[fv] = true
+					}
+					if mc, ok := (*op).(*ssa.MakeClosure); ok {
+						_ = mc
+					}
+				}
+			}
+		}
 	}
 }
